@@ -304,9 +304,16 @@ impl<D: DataRef> GGLWEToRef for GGLWE<D> {
 
 impl<D: DataMut> ReaderFrom for GGLWE<D> {
     fn read_from<R: std::io::Read>(&mut self, reader: &mut R) -> std::io::Result<()> {
-        self.base2k = Base2K(reader.read_u32::<LittleEndian>()?);
-        self.dsize = Dsize(reader.read_u32::<LittleEndian>()?);
-        self.data.read_from(reader)
+        // Temporaries first: `self` is only touched once the whole object has been read.
+        let base2k: Base2K = Base2K(reader.read_u32::<LittleEndian>()?);
+        let dsize: Dsize = Dsize(reader.read_u32::<LittleEndian>()?);
+        if base2k.0 == 0 || dsize.0 == 0 {
+            return Err(std::io::Error::new(std::io::ErrorKind::InvalidData, "GGLWE: base2k = 0 or dsize = 0"));
+        }
+        self.data.read_from(reader)?;
+        self.base2k = base2k;
+        self.dsize = dsize;
+        Ok(())
     }
 }
 
